@@ -590,6 +590,8 @@ class ConfigParser(object):
     species_a, species_b = tokens
     species_a = species_a.strip()
     species_b = species_b.strip()
+    if not species_a or not species_b:
+      raise ConfigParserException("Pair interaction keys should be of the form 'SPECIES_A-SPECIES_B', a species label is missing. Invalid key found: '{}'".format(k))
     return  SpeciesTuple(species_a, species_b)
 
 
@@ -619,6 +621,8 @@ class ConfigParser(object):
       from_species, to_species = tokens
       from_species = from_species.strip()
       to_species = to_species.strip()
+      if not from_species or not to_species:
+        raise ConfigParserException("invalid key '{}', a species label is missing".format(k))
       return  EAMFSDensitySpeciesTuple(from_species, to_species)
 
     try:
@@ -812,6 +816,8 @@ class ConfigParser(object):
       if len(tokens) == 1:
         raise ConfigParserException("Error when parsing [Species] section. Keys should be of the form 'SPECIES_LABEL.PROPERTY_NAME'. Invalid key found: '{}'".format(k))
       species, property_name = [t.strip() for t in tokens]
+      if not species or not property_name:
+        raise ConfigParserException("Error when parsing [Species] section. Keys should be of the form 'SPECIES_LABEL.PROPERTY_NAME'. Invalid key found: '{}'".format(k))
       v = self._config_parser["Species"][k]
       v = self._convert_species_type(property_name, v)
       d.setdefault(species, {})[property_name] = v
